@@ -68,6 +68,14 @@ func runC05(c *core.Ctx) {
 		// the callbacks handed to a source: literals in place, or made by a factory of the package (its parameters
 		// then stand for the arguments: `next` for produce, a bound for the limit)
 		candidates := findFuncLits(fn.Decl.Body)
+		owner := map[*ast.FuncLit]*core.FuncRef{}
+		// … and the literals of the helpers the function hands the emission to (a printTable method, say)
+		for _, h := range helperClosure(p, fn)[1:] {
+			for _, fl := range findFuncLits(h.Decl.Body) {
+				candidates = append(candidates, fl)
+				owner[fl] = h
+			}
+		}
 		for _, rc := range nodeRunCalls(p, fn) {
 			if rc.Produce != nil && len(getLitBinds(rc.Produce)) > 0 {
 				candidates = append(candidates, rc.Produce)
@@ -116,7 +124,11 @@ func runC05(c *core.Ctx) {
 			if len(lits) > 1 {
 				lkey = fmt.Sprintf("%s/loop%d", key, li+1)
 			}
-			needINV, bad, npaths := checkLimitLiteral(c, p, fn, lit, s, ids)
+			host := fn
+			if h := owner[lit]; h != nil {
+				host = h
+			}
+			needINV, bad, npaths := checkLimitLiteral(c, p, host, lit, s, ids)
 			if bad == "" && needINV {
 				// test-after style: the invariant counter < limit must hold at first entry
 				if ok, why := limitZeroGuard(c, p, fn, ids); !ok {
